@@ -25,7 +25,9 @@ ASSUMPTIONS = [
 ]
 TRUSTED = ["model Bind.lean hand-written; tied to the real compiler by stream shapes"]
 PROBE = str(Path(__file__).resolve().parent / "probe.sh")
-EXTRA = ["-ah", "probe=" + PROBE, "-ah", "Size=" + PROBE, "-a", "Mine=%Upper(){a}", "-a", "Num=%Count(1)", "-a", "Name=x"]
+EXTRA = ["-ah", "probe=" + PROBE, "-ah", "Size=" + PROBE, "-a", "Mine=%Upper(){a}", "-a", "Num=%Count(1)", "-a", "Name=x",
+         # aliases of every shape: one tag that itself takes an optional context, two tags, a pipe list
+         "-a", "Opt=%Ext()", "-a", "Two=%Base()%Ext()", "-a", "Piped=x|%Upper()"]
 BINDING_MESSAGES = ("unexpected keyword", "missing", "positional argument", "multiple values", "takes no arguments",
                     "takes 1 positional")
 
@@ -37,7 +39,8 @@ def _registry():
         from tempren.cli import validate_adhoc_tags, validate_aliases, adhoc_tag, alias
         from tempren.pipeline import build_tag_registry
         adhoc = validate_adhoc_tags([[adhoc_tag("probe=" + PROBE)], [adhoc_tag("Size=" + PROBE)]])
-        aliases = validate_aliases([[alias("Mine=%Upper(){a}")], [alias("Num=%Count(1)")], [alias("Name=x")]])
+        aliases = validate_aliases([[alias("Mine=%Upper(){a}")], [alias("Num=%Count(1)")], [alias("Name=x")],
+                                    [alias("Opt=%Ext()")], [alias("Two=%Base()%Ext()")], [alias("Piped=x|%Upper()")]])
         _state["reg"] = build_tag_registry(adhoc, aliases)
     return _state["reg"]
 
